@@ -351,7 +351,7 @@ Definition gc_le_b (a b : gcv) : bool :=
 
 Definition escapes_to_gc (o : op) : bool :=
   match o with
-  | OSvc i _ _ _ _ _ | OApiDel i | OSeed i _ _ => match key_of i with KGc => true | _ => false end
+  | OSvc i _ _ _ _ _ | OApiDel i => match key_of i with KGc => true | _ => false end
   | _ => false
   end.
 
